@@ -74,17 +74,15 @@ func isCallTo(v ssa.Value, names ...string) bool {
 // callsIn lists the call instructions (Call, Go, Defer) of f whose resolved callee is one of names.
 func callsIn(f *ssa.Function, names ...string) []ssa.CallInstruction {
 	var out []ssa.CallInstruction
-	for _, b := range f.Blocks {
-		for _, in := range b.Instrs {
-			ci, ok := in.(ssa.CallInstruction)
-			if !ok {
-				continue
-			}
-			n := calleeName(ci.Common())
-			for _, w := range names {
-				if n == w {
-					out = append(out, ci)
-				}
+	for _, in := range instrs(f) {
+		ci, ok := in.(ssa.CallInstruction)
+		if !ok {
+			continue
+		}
+		n := calleeName(ci.Common())
+		for _, w := range names {
+			if n == w {
+				out = append(out, ci)
 			}
 		}
 	}
@@ -94,11 +92,12 @@ func callsIn(f *ssa.Function, names ...string) []ssa.CallInstruction {
 // allCalls lists every call instruction of f.
 func allCalls(f *ssa.Function) []ssa.CallInstruction {
 	var out []ssa.CallInstruction
-	for _, b := range f.Blocks {
-		for _, in := range b.Instrs {
-			if ci, ok := in.(ssa.CallInstruction); ok {
-				out = append(out, ci)
+	for _, in := range instrs(f) {
+		if ci, ok := in.(ssa.CallInstruction); ok {
+			if transparentCallee(in) != nil {
+				continue // the call of a helper is represented by the helper's own instructions
 			}
+			out = append(out, ci)
 		}
 	}
 	return out
@@ -120,14 +119,6 @@ func withClosures(f *ssa.Function) []*ssa.Function {
 	out := []*ssa.Function{f}
 	for _, a := range f.AnonFuncs {
 		out = append(out, withClosures(a)...)
-	}
-	return out
-}
-
-func instrs(f *ssa.Function) []ssa.Instruction {
-	var out []ssa.Instruction
-	for _, b := range f.Blocks {
-		out = append(out, b.Instrs...)
 	}
 	return out
 }
@@ -256,7 +247,23 @@ func factEqString(m VPred, s string, eq bool) EdgePred {
 	return func(cond ssa.Value, branch bool) bool {
 		c, b := stripNot(cond, branch)
 		bo, ok := c.(*ssa.BinOp)
-		if !ok || (bo.Op != token.EQL && bo.Op != token.NEQ) {
+		if !ok {
+			return false
+		}
+		if s == "" {
+			// the idioms len(x) == 0, len(x) != 0, len(x) > 0, len(x) < 1 ... say the same about x as x == ""
+			isLenOfM := func(v ssa.Value) bool {
+				call := asCall(v)
+				return call != nil && calleeName(&call.Call) == "builtin len" && len(call.Call.Args) == 1 && m(call.Call.Args[0])
+			}
+			if isLenOfM(bo.X) || isLenOfM(bo.Y) {
+				if factLenPositive(m, !eq)(cond, branch) {
+					return true
+				}
+				return false
+			}
+		}
+		if bo.Op != token.EQL && bo.Op != token.NEQ {
 			return false
 		}
 		var side ssa.Value
@@ -389,6 +396,16 @@ func pathExists(fn *ssa.Function, from, to ssa.Instruction, cutEdge EdgePred, cu
 	if len(fn.Blocks) == 0 {
 		return false
 	}
+	if curProg != nil && curProg.ti != nil && len(curProg.ti.transparent) > 0 {
+		// helpers unknown to the rules are looked through; a query rooted in a helper is asked from every real root
+		any := false
+		for _, root := range rootsOf(fn) {
+			if viPathExists(root, from, to, cutEdge, cutInstr) {
+				any = true
+			}
+		}
+		return any
+	}
 	seen := map[*ssa.BasicBlock]bool{}
 	var work []*ssa.BasicBlock
 	// scan runs through a block from index i; returns true when `to` is met; pushes successors when the end is reached
@@ -444,7 +461,11 @@ func pathExists(fn *ssa.Function, from, to ssa.Instruction, cutEdge EdgePred, cu
 // guardedBy reports whether every path from the function entry (from == nil) or from just after instruction `from`
 // to the instruction target takes at least one If edge accepted by pred.
 func guardedBy(target ssa.Instruction, from ssa.Instruction, pred EdgePred) bool {
-	return !pathExists(target.Parent(), from, target, pred, nil)
+	fn := target.Parent()
+	if from != nil && from.Parent() != fn && !isTransparent(from.Parent()) {
+		fn = from.Parent() // the query starts in the real root
+	}
+	return !pathExists(fn, from, target, pred, nil)
 }
 
 // guardedOn is guardedBy for a fact about the SSA value v: every path from v's definition to target crosses an
@@ -480,6 +501,14 @@ func reachableFrom(from, to *ssa.BasicBlock) bool {
 // precedes reports whether every path from entry to instruction b passes through instruction a (a dominates b).
 func dominates(a, b ssa.Instruction) bool {
 	if a.Parent() != b.Parent() {
+		if isTransparent(a.Parent()) || isTransparent(b.Parent()) {
+			for _, root := range rootsOf(b.Parent()) {
+				if viPathExists(root, nil, b, nil, isOneOf(a)) {
+					return false
+				}
+			}
+			return true
+		}
 		return false
 	}
 	if a.Block() == b.Block() {
@@ -491,6 +520,13 @@ func dominates(a, b ssa.Instruction) bool {
 // canFollow reports whether instruction b can execute after instruction a on some path.
 func canFollow(a, b ssa.Instruction) bool {
 	if a.Parent() != b.Parent() {
+		if isTransparent(a.Parent()) || isTransparent(b.Parent()) {
+			for _, root := range rootsOf(a.Parent()) {
+				if viPathExists(root, a, b, nil, nil) {
+					return true
+				}
+			}
+		}
 		return false
 	}
 	if a.Block() == b.Block() && instrIndex(a) < instrIndex(b) {
@@ -519,7 +555,12 @@ func returnsOf(f *ssa.Function) []*ssa.Return {
 type Origin struct {
 	V     ssa.Value // the terminal value: *ssa.Call, *ssa.Parameter, *ssa.Const, *ssa.Global, *ssa.Alloc, *ssa.FreeVar, field load...
 	Index int       // for a tuple-returning call: the extracted result index; -1 otherwise
+	// Env is the parameter binding under which the origin was reached when it lies inside a helper that is being looked
+	// through: predicates that inspect the origin's operands evaluate them under this binding.
+	Env map[*ssa.Parameter]ssa.Value
 }
+
+func (o Origin) same(p Origin) bool { return o.V == p.V && o.Index == p.Index }
 
 type provCtx struct {
 	seen  map[ssa.Value]bool
@@ -537,7 +578,7 @@ func originsOf(v ssa.Value) []Origin {
 }
 
 func (c *provCtx) emit(v ssa.Value, idx int) {
-	c.out = append(c.out, Origin{V: v, Index: idx})
+	c.out = append(c.out, Origin{V: v, Index: idx, Env: paramEnv})
 }
 
 func (c *provCtx) walk(v ssa.Value, idx int) {
@@ -616,6 +657,61 @@ func (c *provCtx) walk(v ssa.Value, idx int) {
 		if b, ok := paramEnv[x]; ok {
 			c.walk(b, idx)
 			return
+		}
+		if isTransparent(x.Parent()) {
+			// context-insensitive fallback: the union over every call site of the helper
+			pos := -1
+			for i, pp := range x.Parent().Params {
+				if pp == x {
+					pos = i
+				}
+			}
+			sites := curProg.ti.callers[x.Parent()]
+			if pos >= 0 && len(sites) > 0 {
+				for _, cs := range sites {
+					if pos < len(cs.Common().Args) {
+						c.walk(cs.Common().Args[pos], idx)
+					}
+				}
+				return
+			}
+		}
+		c.emit(v, idx)
+	case *ssa.Call:
+		if callee := transparentCallee(x); callee != nil && c.depth < 4 {
+			// look through the helper: its returned values with its parameters bound to this call's arguments
+			saved := paramEnv
+			env := map[*ssa.Parameter]ssa.Value{}
+			for k, vv := range saved {
+				env[k] = vv
+			}
+			for i, prm := range callee.Params {
+				if i < len(x.Call.Args) {
+					env[prm] = x.Call.Args[i]
+				}
+			}
+			paramEnv = env
+			c.depth++
+			ri := idx
+			if ri < 0 {
+				ri = 0
+			}
+			n := 0
+			for _, r := range returnsOf(callee) {
+				if isRecoverReturn(r) {
+					continue
+				}
+				if rv := resOf(r, ri); rv != nil {
+					// results are fresh values of another function: do not let the seen-set of this walk hide them
+					c.walk(rv, -1)
+					n++
+				}
+			}
+			c.depth--
+			paramEnv = saved
+			if n > 0 {
+				return
+			}
 		}
 		c.emit(v, idx)
 	default:
@@ -762,14 +858,22 @@ func allOrigins(v ssa.Value, preds ...OPred) (bool, *Origin) {
 	if len(os) == 0 {
 		return false, nil
 	}
+	savedEnv := paramEnv
+	defer func() { paramEnv = savedEnv }()
 	for i := range os {
 		ok := false
+		if os[i].Env != nil {
+			paramEnv = os[i].Env
+		} else {
+			paramEnv = savedEnv
+		}
 		for _, p := range preds {
 			if p(os[i]) {
 				ok = true
 				break
 			}
 		}
+		paramEnv = savedEnv
 		if !ok {
 			// a wrapper/helper of the repository: look through it
 			if sub, restore, can := expandCall(os[i]); can {
@@ -800,10 +904,16 @@ func allOrigins(v ssa.Value, preds ...OPred) (bool, *Origin) {
 
 // someOrigin: some origin satisfies p.
 func someOrigin(v ssa.Value, p OPred) bool {
+	savedEnv := paramEnv
+	defer func() { paramEnv = savedEnv }()
 	for _, o := range originsOf(v) {
+		if o.Env != nil {
+			paramEnv = o.Env
+		}
 		if p(o) {
 			return true
 		}
+		paramEnv = savedEnv
 	}
 	return false
 }
@@ -815,6 +925,36 @@ func oCall(idx int, names ...string) OPred {
 			return false
 		}
 		return idx < 0 || o.Index == idx || (o.Index < 0 && idx == 0)
+	}
+}
+
+// baseName strips package/receiver qualification from a resolved callee name: "(*p.T).m" and "p.m" both give "m".
+func baseName(full string) string {
+	if i := strings.LastIndex(full, "."); i >= 0 {
+		return full[i+1:]
+	}
+	return full
+}
+
+// oCallBase: origin is a call to a repository function with one of the given base names, whatever its receiver
+// (robust against a method becoming a function or moving to another receiver).
+func oCallBase(idx int, names ...string) OPred {
+	return func(o Origin) bool {
+		c := asCall(o.V)
+		if c == nil {
+			return false
+		}
+		n := calleeName(&c.Call)
+		if !strings.Contains(n, "rt/") && !strings.HasPrefix(n, "rt.") && !strings.HasPrefix(n, "(rt.") && !strings.HasPrefix(n, "(*rt.") {
+			return false
+		}
+		b := baseName(n)
+		for _, w := range names {
+			if b == w {
+				return idx < 0 || o.Index == idx || (o.Index < 0 && idx == 0)
+			}
+		}
+		return false
 	}
 }
 
@@ -979,7 +1119,7 @@ func vSame(w ssa.Value) VPred {
 		if len(a) != 1 || len(b) != 1 {
 			return false
 		}
-		return a[0] == b[0]
+		return a[0].same(b[0])
 	}
 }
 
